@@ -3,6 +3,7 @@ import ChiModel.Labels
 import ChiModel.ReducedResize
 import ChiModel.TopLevel
 import ChiModel.PosteriorS1
+import ChiModel.CtrlHistory
 import ChiDriver.C08
 open Wire ChiModel
 namespace ChiDriver.C17
@@ -91,7 +92,38 @@ def posteriorS1 : Op
     | .error _ => some [errVal "valueError"]
   | _ => none
 
+def parseKind : String → Option CtrlHistory.Kind
+  | "H" => some .het
+  | "P" => some .pooled
+  | "LN" => some .lognormal
+  | "G" => some .gaussian
+  | _ => none
+
+def parseCtrlOp : Val → Option CtrlHistory.Op
+  | .list [.str "pop", ksV] => do
+    let ks ← (← ksV.strs?).mapM parseKind
+    some (.setPop ks)
+  | .list [.str "data", nV] => do some (.setData (← nV.nat?))
+  | .list [.str "fix", nsV] => do some (.fix ((← nsV.strs?).map unesc))
+  | .list [.str "release", nsV] => do some (.release ((← nsV.strs?).map unesc))
+  | _ => none
+
+/-- `C17.ctrlHistory bottomNames ops` → `[names, count, top-level names of the posterior | none]` of a
+    `ProblemModellingController` after the history `ops` (`[pop [H|P|LN|G …]]`, `[data n]`, `[fix names]`,
+    `[release names]`) -/
+def ctrlHistory : Op
+  | [bottomV, opsV] => do
+    let bottom := (← bottomV.strs?).map unesc
+    let ops ← (← opsV.list?).mapM parseCtrlOp
+    let st := CtrlHistory.run bottom CtrlHistory.init ops
+    let out (l : List String) : Val := .list (l.map (fun s => .str (esc s)))
+    some [out (CtrlHistory.names bottom st), .int (CtrlHistory.count bottom st),
+          match CtrlHistory.posteriorTop bottom st with
+          | none => Val.none
+          | some t => out t]
+  | _ => none
+
 def ops : List (String × Op) :=
   [("C17.labels", labels), ("C17.resize", resize), ("C17.topnames", topnames),
-   ("C17.posteriorS1", posteriorS1)]
+   ("C17.posteriorS1", posteriorS1), ("C17.ctrlHistory", ctrlHistory)]
 end ChiDriver.C17
